@@ -356,6 +356,19 @@ def decided(path: PathResult, pred):
     return None
 
 
+def early_exits(path: PathResult, fam=None):
+    """The generic loops that this path leaves before their family is exhausted: [(loop event, exit case)] (by break,
+    return or raise inside the body), optionally only loops over ``fam``."""
+    taken = {k[1]: v for k, v in path.decisions if k[0] == "loopexit" and v != "complete"}
+    out = []
+    for ev, Q in iter_events(path.events):
+        if ev.kind == "loop" and ev.id in taken and (fam is None or ev.fam == fam):
+            exits = ev.data.get("exits") or []
+            if isinstance(taken[ev.id], int) and taken[ev.id] < len(exits):
+                out.append((ev, exits[taken[ev.id]]))
+    return out
+
+
 def pred_on_path(path: PathResult, pred):
     """Value of a Boolean combination of predicates under the decisions of a path (None when undetermined)."""
     if not isinstance(pred, tuple) or not pred:
